@@ -49,6 +49,11 @@ def ds_fingerprint(dd, heavy=False):
     me = sd.matrix_e
     for a in (me.data, me.indices, me.indptr):
         h.update(np.ascontiguousarray(a).tobytes())
+    # the listed data every query reads (progeny / fractions / modes / half-lives): part of "the shared dataset"
+    h.update(repr([list(x) for x in dd.progeny]).encode())
+    h.update(repr([list(x) for x in dd.bfs]).encode())
+    h.update(repr([tuple(x) for x in dd.hldata]).encode())
+    h.update(repr(float(dd.float_year_conv)).encode())
     light = h.hexdigest()
     sy = dd._sympy_data
     sy_ok = True
@@ -104,7 +109,7 @@ def diff_fp(a, b):
 
 
 READERS = ["numbers", "activities", "masses", "moles", "fractions", "half_lives", "progeny", "decay", "cumulative_decays",
-           "time_series", "to_csv", "len", "repr", "operators", "plot"]
+           "time_series", "to_csv", "len", "repr", "operators", "plot", "nuclide_diagram"]
 
 
 class ArgumentChanged(Exception):
@@ -160,6 +165,16 @@ def do_reader(rd, inv, kind, r, tmpdir, hp):
         return repr(inv)
     if kind == "operators":
         return (inv * 2.0 if not hp else inv * 2, inv + inv, inv - inv, (inv / 3.0) if not hp else inv / 3)
+    if kind == "nuclide_diagram":
+        # the decay-chain diagram of one of the inventory's nuclides, or of a spontaneously fissioning one (chains with the
+        # pseudo-progeny 'SF'): a pure drawing of dataset content
+        import matplotlib
+        matplotlib.use("Agg")
+        import matplotlib.pyplot as plt
+        nm = r.choice(present + ["Cf-252", "U-238", "Fm-256"]) if present else "Cf-252"
+        fig, ax = rd.Nuclide(nm, inv.decay_data).plot()
+        plt.close(fig)
+        return None
     if kind == "plot":
         if hp:
             return None
